@@ -56,6 +56,10 @@ type lfCase struct {
 	pnames []string
 	// inh: the inheritance world this case was generated from (inherit.go)
 	inh *inhWorld
+	// ov: the option-value world this case was generated from (optval.go)
+	ov *ovSpec
+	// optional: slip may reject the defining form (an option value it does not take); that is an outcome, not a failure
+	optional bool
 }
 
 var partWhats = map[string]map[string]bool{}
@@ -286,6 +290,16 @@ func execLF(c *lfCase, res *engine.Result) {
 			res.Hit("lf-inherit-leaf-restates-nearer")
 		}
 	}
+	if c.ov != nil {
+		res.Hit("lf-optval-world")
+		res.Hit("lf-optval-world:" + c.ov.tmpl.kind)
+		if c.ov.critical() {
+			res.Hit("lf-optval-critical-value")
+		}
+		if c.ov.val == nil {
+			res.Hit("lf-optval-absent-twin")
+		}
+	}
 	var fails []*lfFail
 	var ntexts int
 	var outcome string
@@ -382,6 +396,11 @@ func runData(c *lfCase, res *engine.Result) (fails []*lfFail, ntexts int, outcom
 	} else {
 		var err *lisp.Err
 		if obj, err = lisp.EvalIn(scope, ren(c.obj)); err != nil {
+			if c.optional {
+				res.Hit("lf-optval-rejected-by-slip")
+				outcome = "rejected-by-slip " + err.Class
+				return
+			}
 			res.Fail("harness:lf-obj-failed", c.label+": "+err.String())
 			return
 		}
@@ -524,8 +543,15 @@ func runData(c *lfCase, res *engine.Result) (fails []*lfFail, ntexts int, outcom
 			s2 := slip.NewScope()
 			s2.Let(slip.Symbol("f"), l2)
 			for i, p := range c.probes {
+				if c.ov != nil {
+					res.Hit("lf-optval-probes-compared")
+				}
 				if got := evalObserve(s2, ren(p)); got != origProbes[i] {
-					fail("probe-differs", fmt.Sprintf("%s => %s, original %s", p, got, origProbes[i]))
+					what := "probe-differs"
+					if i < len(c.pnames) && c.pnames[i] != "" {
+						what += ":" + c.pnames[i]
+					}
+					fail(what, fmt.Sprintf("%s => %s, original %s", p, got, origProbes[i]))
 					break
 				}
 			}
@@ -625,6 +651,11 @@ func runWorld(c *lfCase, res *engine.Result) (fails []*lfFail, ntexts int, outco
 		}
 	}
 	if _, err := lisp.EvalIn(scope, ren(c.setup, prefix)); err != nil {
+		if c.optional {
+			res.Hit("lf-optval-rejected-by-slip")
+			outcome = "rejected-by-slip " + err.Class
+			return
+		}
 		res.Fail("harness:lf-setup-failed", c.label+": "+err.String())
 		return
 	}
@@ -781,6 +812,9 @@ func runWorld(c *lfCase, res *engine.Result) (fails []*lfFail, ntexts int, outco
 			got := normDocs(strings.ReplaceAll(evalObserve(s2, ren(p, copyPrefix)), copyPrefix, prefix))
 			if c.inh != nil {
 				res.Hit("lf-inherit-probes-compared")
+			}
+			if c.ov != nil {
+				res.Hit("lf-optval-probes-compared")
 			}
 			if got != orig[i] {
 				what := "probe-differs"
